@@ -14,6 +14,15 @@ PROPS = {
     "C03": dict(level="exploration", stages=[dict(kind="sim", quick=25, thorough=600)],
                 rule="one evaluation = one seeded history with a clean restart after every call (or at random positions), from an empty directory or a committed schema-v1 golden file; distinct = distinct canonical event-log hash; non-trivial = executed at least one call",
                 assumptions=["restart is clean (no crash); crash points are C04's", "golden files were written by the pinned tree"]),
+    "C05": dict(level="exploration", stages=[dict(kind="sim", quick=25, thorough=600)],
+                rule="one evaluation = one seeded history with high-entropy marker names/values; after every save every file in the state directory is scanned for every marker in raw, hex, base64 (3 alignments, std+url) and JSON-escaped form; distinct = distinct canonical event-log hash; non-trivial = executed at least one call",
+                assumptions=["wholesale replacement by an older valid snapshot is out of scope, as the property says"]),
+    "C06": dict(level="exploration", stages=[dict(kind="sim", quick=25, thorough=600)],
+                rule="one evaluation = one seeded history of authorised and denied calls with an audit sink that can fail (write error, short write, sync error) at a drawn record; distinct = distinct canonical event-log hash; non-trivial = executed at least one call",
+                assumptions=["sink is an in-memory io.Writer with Sync; the real audit.NewFile path is exercised in the concurrent stage"]),
+    "C08": dict(level="exploration", stages=[dict(kind="sim", quick=25, thorough=600)],
+                rule="one evaluation = one seeded history through Client -> in-process transport -> real handlers, with request corruption and identity faults on a drawn subset of requests, each classified ill-formed / well-formed / unspecified independently of the server; distinct = distinct canonical event-log hash; non-trivial = executed at least one call",
+                assumptions=["no sockets: requests are delivered by calling mux.ServeHTTP"]),
     "C09": dict(level="exploration", stages=[dict(kind="sim", quick=25, thorough=600)],
                 rule="one evaluation = one seeded history biased to conditional gets with V drawn from {active, older, deleted, larger, 0}, through DB API, handlers+Client and FileClient; distinct = distinct canonical event-log hash; non-trivial = executed at least one call",
                 assumptions=["sequential callers; concurrency of activation with conditional gets is C14's"]),
